@@ -15,7 +15,7 @@ inductive QErr (ε : Type) where
   | fuel
 
 /-- The loop of `ParseQuery`. `semi` = a `;` (or the start) precedes; an exhausted list reads as EOF. -/
-def parseQueryLoop {ε σ : Type} (ps : List Tok → Except ε (σ × List Tok)) :
+def absParseQueryLoop {ε σ : Type} (ps : List Tok → Except ε (σ × List Tok)) :
     Nat → Bool → List Tok → List σ → Except (QErr ε) (List σ)
   | 0, _, _, _ => .error .fuel
   | fuel + 1, semi, toks, acc =>
@@ -23,18 +23,18 @@ def parseQueryLoop {ε σ : Type} (ps : List Tok → Except ε (σ × List Tok))
     | [] => .ok acc
     | t :: rest =>
       if t.1 = .EOF then .ok acc
-      else if t.1 = .SEMICOLON then parseQueryLoop ps fuel true rest acc
+      else if t.1 = .SEMICOLON then absParseQueryLoop ps fuel true rest acc
       else if !semi then .error (.missingSemi t)
       else
         match ps (t :: rest) with
         | .error e => .error (.stmt e)
-        | .ok (s, rest') => parseQueryLoop ps fuel false rest' (acc ++ [s])
+        | .ok (s, rest') => absParseQueryLoop ps fuel false rest' (acc ++ [s])
 
 /-- `ParseQuery` on a token list (one loop iteration per token suffices when statements are
 non-empty). -/
-def parseQuery {ε σ : Type} (ps : List Tok → Except ε (σ × List Tok)) (toks : List Tok) :
+def absParseQuery {ε σ : Type} (ps : List Tok → Except ε (σ × List Tok)) (toks : List Tok) :
     Except (QErr ε) (List σ) :=
-  parseQueryLoop ps (toks.length + 1) true toks []
+  absParseQueryLoop ps (toks.length + 1) true toks []
 
 def semiTok : Tok := (.SEMICOLON, [])
 def eofTok : Tok := (.EOF, [])
@@ -62,8 +62,8 @@ def StmtOK {ε σ : Type} (ps : List Tok → Except ε (σ × List Tok)) (x : Li
 
 theorem parseQueryLoop_semis {ε σ : Type} (ps : List Tok → Except ε (σ × List Tok)) (k fuel : Nat)
     (semi : Bool) (rest : List Tok) (acc : List σ) :
-    parseQueryLoop ps (fuel + k) semi (semis k ++ rest) acc =
-      parseQueryLoop ps fuel (semi || decide (0 < k)) rest acc := by
+    absParseQueryLoop ps (fuel + k) semi (semis k ++ rest) acc =
+      absParseQueryLoop ps fuel (semi || decide (0 < k)) rest acc := by
   induction k generalizing semi with
   | zero => simp [semis]
   | succ k ih =>
@@ -74,7 +74,7 @@ theorem parseQueryLoop_semis {ε σ : Type} (ps : List Tok → Except ε (σ × 
     rw [hs]
     have h1 : ¬ semiTok.1 = Token.EOF := by decide
     have h2 : semiTok.1 = Token.SEMICOLON := rfl
-    simp only [parseQueryLoop, h1, h2, if_false, if_true]
+    simp only [absParseQueryLoop, h1, h2, if_false, if_true]
     rw [ih true]
     simp
 
@@ -98,12 +98,12 @@ theorem sepHead_render {σ : Type} (k : Nat) (rest : List (List Tok × Nat × σ
 theorem parseQueryLoop_render {ε σ : Type} (ps : List Tok → Except ε (σ × List Tok))
     (segs : List (List Tok × Nat × σ)) (hok : ∀ x ∈ segs, StmtOK ps x) (hsep : WellSep segs)
     (fuel : Nat) (acc : List σ) (hf : (render segs).length ≤ fuel) :
-    parseQueryLoop ps fuel true (render segs) acc = .ok (acc ++ segs.map (·.2.2)) := by
+    absParseQueryLoop ps fuel true (render segs) acc = .ok (acc ++ segs.map (·.2.2)) := by
   induction segs generalizing fuel acc with
   | nil =>
     cases fuel with
     | zero => simp [render] at hf
-    | succ fuel => simp [render, parseQueryLoop, eofTok]
+    | succ fuel => simp [render, absParseQueryLoop, eofTok]
   | cons x rest ih =>
     obtain ⟨s, k, st⟩ := x
     obtain ⟨⟨t, s', hs, hne, hns⟩, hps⟩ := hok (s, k, st) (by simp)
@@ -126,7 +126,7 @@ theorem parseQueryLoop_render {ε σ : Type} (ps : List Tok → Except ε (σ ×
       have hr : render ((t :: s', k, st) :: rest) = t :: (s' ++ (semis k ++ render rest)) := by
         simp [render]
       rw [hr]
-      simp only [parseQueryLoop, hne, hns, if_false, Bool.not_true, Bool.false_eq_true]
+      simp only [absParseQueryLoop, hne, hns, if_false, Bool.not_true, Bool.false_eq_true]
       have h2 := hps (semis k ++ render rest) (sepHead_render k rest hk)
       simp only [List.cons_append] at h2
       simp only [h2]
@@ -141,6 +141,6 @@ theorem parseQueryLoop_render {ε σ : Type} (ps : List Tok → Except ε (σ ×
       · subst hk
         cases f' with
         | zero => simp [render] at hf; omega
-        | succ f' => simp [render, parseQueryLoop, eofTok]
+        | succ f' => simp [render, absParseQueryLoop, eofTok]
 
 end InfluxQL
